@@ -183,6 +183,11 @@ static void gen_key(chist *h, vh_rng *r, unsigned g, int tweaked)
     o->len = pick_keylen(c, r, g, tweaked);
     o->rounds = c->id == CIPH_MANTIS ? 5 + vh_below(r, 4) : 0;
     vh_fill_interesting(r, buf, o->len);
+    if (!vh_below(r, 5)) {      /* a key this object has had before, through either key function: "already loaded" shortcuts must notice what happened in between */
+        int k, cand[16], nc = 0; unsigned maxk = tweaked ? c->tkey_max : c->key_max;
+        for (k = 0; k < h->n - 1 && nc < 16; ++k) if ((h->ops[k].kind == C_SET_KEY || h->ops[k].kind == C_SET_TKEY) && !(h->ops[k].flags & F_NULL_PTR) && h->ops[k].dlen >= c->bb && h->ops[k].expect != 0) cand[nc++] = k;
+        if (nc) { const cop *q = &h->ops[cand[vh_below(r, (uint32_t)nc)]]; unsigned n; if (vh_below(r, 2) && q->len <= maxk && q->len >= c->bb) o->len = q->len; n = q->dlen < o->len ? q->dlen : o->len; memcpy(buf, h->pool + q->doff, n); o->cls = tweaked ? "set_tweaked_key(a key used before)" : "set_key(a key used before)"; }
+    }
     o->doff = pool_put(h, buf, o->len); o->dlen = o->len;
     placement(o, r, g);
 }
